@@ -1,6 +1,8 @@
-import Cinco.Field.Codec
+import Cinco.Proofs.Prims
+import Cinco.Proofs.Base64
 /-
   C05 — field validation is exact and idempotent; the on-disk encoding is invertible.
+  `validate` is the code-order model of `Field.validate` + every built-in `_validate` (Cinco/Field/Validate.lean).
 -/
 namespace Cinco.C05
 open Cinco Cinco.Field
@@ -9,5 +11,62 @@ open Cinco Cinco.Field
 theorem validate_none (E : Env) (k : Kind) (req : Bool) (c : Option String) :
     validate E (.mk k req c) .none = if req then .error .value else .ok .none := by
   cases req <;> simp [validate]
+
+/-- **Idempotence**, for every built-in field class under every parameterisation covered by `IdemOk`
+    (everything except custom validators and the two recorded findings F22 / F25), at every nesting depth of typed
+    lists and dicts, for every input value of every type: validating an accepted result again returns the same value
+    and never rejects it.  `EnvOk` is what it needs from `os.path` (a resolved path is absolute). -/
+theorem validate_idem (E : Env) (hE : EnvOk E) (f : FieldSpec) (v v' : Val) (hf : IdemOk f = true)
+    (h : validate E f v = .ok v') : validate E f v' = .ok v' :=
+  Field.validate_idem prims E hE f v v' hf h
+
+/-- String transforms are idempotent for every combination of strip (off / whitespace / characters) and case
+    (none / lower / upper) options — the repaired order strip, case, strip again (finding F9). -/
+theorem string_transform_idem (o : StrOpts) (s : Str) : transform o (transform o s) = transform o s :=
+  transform_idem o s
+
+instance : DecidableEq (Except Err Val) := fun a b =>
+  match a, b with
+  | .ok x, .ok y => if h : x = y then isTrue (by rw [h]) else isFalse (by intro e; cases e; exact h rfl)
+  | .error x, .error y => if h : x = y then isTrue (by rw [h]) else isFalse (by intro e; cases e; exact h rfl)
+  | .ok _, .error _ => isFalse (by intro e; cases e)
+  | .error _, .ok _ => isFalse (by intro e; cases e)
+
+/-- a trivial environment for closed examples -/
+def env0 : Env :=
+  { parseFloat := fun _ => none, fsKind := fun _ => .absent, isabs := fun s => s.head? == some '/', resolve := fun _ t => '/' :: t,
+    urlOk := fun _ => false, salt := fun _ => [], hash := fun _ b => b, utf8 := fun _ => [], custom := fun _ v => .ok v }
+
+/-- **Finding F22 is real (the full statement is false without the guard)**: with a StringField option on an
+    IPv4NetworkField the canonical form that validation returns is rejected by the same field. -/
+theorem idem_false_ipv4net_with_string_options :
+    ∃ (f : FieldSpec) (v v' : Val), validate env0 f v = .ok v' ∧ validate env0 f v' = .error .value :=
+  ⟨.mk (.ipv4net { maxLen := some 8 } none none) false none, .str "10.0.0.1".toList, .str "10.0.0.1/32".toList, by decide +kernel, by decide +kernel⟩
+
+/-- Non-vacuity of `validate_idem`: a nested declaration inside the guard with a value that is really normalised. -/
+example : IdemOk (.mk (.list (some (.mk (.string { strip := .chars ['x'], case := some .lower, minLen := some 2 }) true none))) true none) = true := by decide
+example : validate env0 (.mk (.list (some (.mk (.string { strip := .chars ['x'], case := some .lower, minLen := some 2 }) true none))) true none)
+    (.tuple [.str "Xabcx".toList]) = .ok (.list [.str "abc".toList]) := by decide +kernel
+
+/-! ### On-disk encoding -/
+
+/-- **Bytes**: decoding the stored text gives the bytes back, for both encodings and every byte string. -/
+theorem bytes_codec (E : CodecEnv) (enc : Enc) (req : Bool) (b : Bytes) :
+    (toBasic E (.mk (.bytes enc) req none) (.bytes b)).bind (toPython E (.mk (.bytes enc) req none)) = .ok (.bytes b) := by
+  cases enc <;> simp [toBasic, toBasicKind, toPython, toPythonKind, encodeBytes, decodeBytes, Except.bind,
+    B64.decode_encode, B64.hexDecode_hexEncode]
+
+/-- **Digests**: salt and digest survive the stored form, for a digest of the field's own algorithm (finding F23 is the
+    case of a foreign algorithm, which the stored form cannot carry). -/
+theorem challenge_codec (E : CodecEnv) (alg : String) (req : Bool) (salt dig : Bytes) :
+    (toBasic E (.mk (.challenge alg) req none) (.digest salt dig alg)).bind (toPython E (.mk (.challenge alg) req none)) =
+      .ok (.digest salt dig alg) := by
+  simp [toBasic, toBasicKind, toPython, toPythonKind, digestToBasic, dictGet, Except.bind, B64.decode_encode]
+
+/-- Identity-coded kinds: strings, numbers, booleans, addresses, paths, URLs are stored as they are. -/
+theorem scalar_codec (E : CodecEnv) (k : Kind) (req : Bool) (v : Val)
+    (hk : match k with | .string _ | .int _ _ | .float _ _ | .bool | .ipv4addr _ | .ipv4net _ _ _ | .hostname _ _ | .filename _ _ _ | .url _ | .any => True | _ => False) :
+    toBasic E (.mk k req none) v = .ok v ∧ toPython E (.mk k req none) v = .ok v := by
+  cases k <;> simp at hk <;> simp [toBasic, toBasicKind, toPython, toPythonKind]
 
 end Cinco.C05
